@@ -254,7 +254,7 @@ const c03Everything = "# h1\n## h2\n### h3\n#### h4\n##### h5\n###### h6\n\n> q\
 
 func runC03(c *core.Ctx) {
 	pool := cfg.NewPool()
-	safe := cfg.Safe()
+	safe := append(cfg.Safe(), richSafe()...)
 	corpus := loadCorpus(c)
 	r := c.Rng
 	if c.Shard == 0 {
